@@ -745,6 +745,37 @@ func main() {
 		observe(ps, "create")
 		c.start()
 		observe(ps, "restart")
+	case "dead-leave":
+		// a member dies and is then removed (the usual reason for removing one): partitions it shared with one
+		// other node have no leader any more; datasets are deleted and created afterwards and every remaining
+		// node has to keep applying the catalogue
+		for i := 0; i < 5; i++ {
+			create(a, 4, 2) // many two-replica partitions: some are on {1,2} with 1 first, some on {2,3} with 3 first
+		}
+		observe(ps, "create")
+		b.kill()
+		ctx, cancel := context.WithTimeout(context.Background(), 5*time.Second)
+		_, err := pb.NewNodesManagerClient(a.conn).RemoveNode(ctx, &pb.Node{Id: 2})
+		cancel()
+		okv, es := 1, ""
+		if err != nil {
+			okv, es = 0, err.Error()
+		}
+		emit(event{"ev": "left", "node": 2, "ok": okv, "err": es})
+		time.Sleep(2000 * time.Millisecond)
+		observe(ps, "leave")
+		if cat, err := catalogue(a); err == nil {
+			for _, d := range cat {
+				del(c, d.Id)
+			}
+		}
+		observe(ps, "delete")
+		createRetry(a, 2, 2, 4)
+		createRetry(c, 1, 1, 4)
+		observe(ps, "create")
+		c.kill()
+		c.start()
+		observe(ps, "restart")
 	case "lagging-empty":
 		// while a follower is down the last dataset is deleted and the logs are compacted: the snapshot it
 		// catches up from describes an EMPTY catalogue
